@@ -534,6 +534,8 @@ def with_real_ranks(project, ranks):
             s["rank"] = num[ranks[".".join(sp)]]
         for t in s["tests"]:
             k = ".".join(sp + [t["name"]])
+            if k + D.TEST_KEY_SUFFIX in ranks:         # a test named like a sibling sub-suite
+                k = k + D.TEST_KEY_SUFFIX
             if k in ranks:
                 t["rank"] = num[ranks[k]]
     return p
